@@ -4,6 +4,7 @@
 #include <cmath>
 #include <map>
 #include <memory>
+#include <csignal>
 
 #include "common.hpp"
 #include "world_spec.hpp"
@@ -139,6 +140,27 @@ namespace
         g_agg.print();
     }
 
+    // wall-clock watchdog: a single run normally takes milliseconds. If one run makes no progress for
+    // this long (library code looping without reaching any schedule point), report it and exit.
+    constexpr unsigned STUCK_SECONDS = 40;
+    void on_alarm(int)
+    {
+        g_cur.res.verdict = "violation";
+        g_cur.res.cls = "stuck";
+        std::string during = "?";
+        if (vw::g_current_op >= 0 && vw::g_current_op < static_cast<int>(g_cur.spec.history.size()))
+            during = vw::hop_name(g_cur.spec.history[static_cast<std::size_t>(vw::g_current_op)].kind);
+        g_cur.res.key = "stuck:world:" + during;
+        g_cur.res.detail = "no progress for " + std::to_string(STUCK_SECONDS) + " s of wall-clock time inside one simulated run (op#"
+                           + std::to_string(vw::g_current_op) + " " + during + "): library code loops without reaching a schedule point";
+        g_cur.res.st = vsim::current_stats();
+        if (!g_cur.replaying && g_args.gates("stuck"))
+            g_cur.res.replay_path = write_replay("stuck", g_cur.res.key, g_cur.res.detail);
+        vh::print_result(g_cur.res, true);
+        g_agg.print();
+        _exit(4);
+    }
+
     vsim::Config gen_cfg(Rng& r, bool thorough)
     {
         vsim::Config c;
@@ -183,6 +205,7 @@ namespace
     // sanitizer reports are attributed to a run from the moment its generation starts
     void begin_window()
     {
+        alarm(STUCK_SECONDS);
         g_cap.begin_run();
         g_tsan0 = vsim::tsan_reports();
     }
@@ -266,6 +289,7 @@ extern "C" void __sanitizer_set_death_callback(void (*callback)(void));
 int main(int argc, char** argv)
 {
     __sanitizer_set_death_callback(&on_sanitizer_death);
+    signal(SIGALRM, &on_alarm);
     g_args = vh::parse_args(argc, argv);
     g_cap.start();
     vsim::install();
